@@ -3,6 +3,7 @@ package main
 // C04 (merge) and C05 (overlap).
 
 import (
+	"github.com/trajectoryjp/spatial_id_go/v4/common/object"
 	"github.com/trajectoryjp/spatial_id_go/v4/detector"
 	"github.com/trajectoryjp/spatial_id_go/v4/integrate"
 )
@@ -254,6 +255,12 @@ func driveMerge(t *Tracer, r Rng, n int) {
 				v += r.In(0, 2)
 			}
 			evMergeExt(t, w, ids, h, v)
+			if i%3 == 0 {
+				evMergeSteps(t, w, ids, h, v)
+			}
+			if m := ids[r.Intn(len(ids))]; m.H >= h && m.V >= v {
+				evHigher(t, w, m, r.In(0, m.H-h), r.In(0, m.V-v))
+			}
 		} else {
 			d := r.In(0, 5)
 			w := r.randomWindow(d+3, d+3, true)
@@ -365,6 +372,7 @@ func init() {
 	reg("G.Merge", func(t *Tracer, w Win, a map[string]any) {
 		ids, h, v := decIDs(a["ids"]), decInt(a["h"]), decInt(a["v"])
 		evMergeExt(t, w, ids, h, v)
+		evMergeSteps(t, w, ids, h, v)
 		if h == v && allSameZoom(ids) {
 			evMergeSp(t, w.sameZoom(), ids, h)
 		}
@@ -412,4 +420,87 @@ func treeDomainWin(w Win, ids []ID) *Win {
 		w.F0 = half - 2
 	}
 	return &w
+}
+
+// evMergeSteps drives the merge's exported building blocks one step at a
+// time (NewUnitDividedSpatialID, NewHighSpatialID, HighSpatialID.Merge,
+// IsDense) over inputs that are all at least as fine as the target (h, v):
+// the groups formed and their density verdicts are the observable state.
+func evMergeSteps(t *Tracer, w Win, ids []ID, h, v int64) {
+	var el []ID
+	mh, mv := h, v
+	for _, m := range ids {
+		if m.H >= h && m.V >= v {
+			el = append(el, m)
+			mh, mv = maxI(mh, m.H), maxI(mv, m.V)
+		}
+	}
+	if len(el) == 0 {
+		return
+	}
+	groups := map[string]*integrate.HighSpatialID{}
+	var order []string
+	o, _ := guard(func() (any, error) {
+		for _, m := range el {
+			s, err := object.NewExtendedSpatialID(w.E(m).String())
+			if err != nil {
+				return nil, err
+			}
+			u := integrate.NewUnitDividedSpatialID(s, mh-m.H, mv-m.V)
+			hi := integrate.NewHighSpatialID(u, m.H-h, m.V-v)
+			if g, ok := groups[hi.ID()]; ok {
+				g.Merge(hi)
+			} else {
+				groups[hi.ID()] = hi
+				order = append(order, hi.ID())
+			}
+		}
+		return nil, nil
+	})
+	e := w.ev("MergeSteps", map[string]any{"ids": idsArr(el), "h": h, "v": v, "mh": mh, "mv": mv})
+	e.O, e.Real = o, map[string]any{"ids": w.embedExtList(el), "h": w.H0 + h, "v": w.V0 + v}
+	out := []any{}
+	if o == "ok" {
+		for _, k := range order {
+			id, ok := ParseExt(k)
+			m, ok2 := w.P(id)
+			if !ok || !ok2 {
+				e.Bad = "far:" + k
+				continue
+			}
+			out = append(out, []any{m.Arr(), groups[k].IsDense()})
+		}
+	}
+	e.R = out
+	t.Emit(e, true)
+}
+
+// evHigher: ExtendedSpatialID.Higher on its own (the floor ancestor).
+func evHigher(t *Tracer, w Win, m ID, dh, dv int64) {
+	real := w.E(m)
+	var got string
+	o, _ := guard(func() (any, error) {
+		s, err := object.NewExtendedSpatialID(real.String())
+		if err != nil {
+			return nil, err
+		}
+		got = s.Higher(dh, dv).ID()
+		return nil, nil
+	})
+	e := w.ev("Higher", map[string]any{"id": m.Arr(), "dh": dh, "dv": dv})
+	e.O, e.Real = o, map[string]any{"id": real.String(), "dh": dh, "dv": dv}
+	e.R = []any{}
+	if o == "ok" {
+		e.R = w.projExtList([]string{got}, &e.Bad)
+	}
+	t.Emit(e, true)
+}
+
+func init() {
+	reg("MergeSteps", func(t *Tracer, w Win, a map[string]any) {
+		evMergeSteps(t, w, decIDs(a["ids"]), decInt(a["h"]), decInt(a["v"]))
+	})
+	reg("Higher", func(t *Tracer, w Win, a map[string]any) {
+		evHigher(t, w, decID(a["id"]), decInt(a["dh"]), decInt(a["dv"]))
+	})
 }
